@@ -20,7 +20,9 @@ THEOREMS = [
     "TornadoModel.C42.good_step",
     "TornadoModel.C42.good_after",
     "TornadoModel.C42.settle",
+    "TornadoModel.C42.settle_drain",
     "TornadoModel.C42.callback_exactly_once",
+    "TornadoModel.C42.callback_exactly_once_after_sigchld",
     "TornadoModel.C42.wait_for_exit_outcome",
     "TornadoModel.C42.futOf_eq_spec",
     "TornadoModel.C42.callback_at_most_once",
@@ -37,7 +39,7 @@ ASSUMPTIONS = [
     "callbacks do not raise and do not re-register",
 ]
 RULE = ("histories over {exit c status, register c mode, sigchld, drain}; complete enumeration for <=3 children with at most "
-        "one exit and one registration each, every history also closed by [sigchld, drain]; random stream adds raw statuses, "
+        "one exit and one registration each, every history closed by a final drain; random stream adds raw statuses, "
         "re-registration, duplicate exits, 4 children; non-trivial = some child both exits and is registered")
 EXHAUSTIVE = {"quick": True, "thorough": True}
 CLAUSES = {
@@ -100,7 +102,7 @@ def _enum_cases(n, maxlen):
     for k, seq in enumerate(_enum_histories(n, maxlen)):
         if not any(a[0] == "reg" for a in seq):
             continue
-        yield {"kind": "script", "n": n, "ops": _concretise(seq, k) + [["sigchld"], ["drain"]], "enum": True}
+        yield {"kind": "script", "n": n, "ops": _concretise(seq, k) + [["drain"]], "enum": True}
 
 
 def _rand_case(rng):
@@ -118,8 +120,11 @@ def _rand_case(rng):
             ops.append(["sigchld"])
         else:
             ops.append(["drain"])
-    if rng.random() < 0.7:
+    k = rng.random()
+    if k < 0.4:
         ops += [["sigchld"], ["drain"]]
+    elif k < 0.8:
+        ops += [["drain"]]
     return {"kind": "script", "n": n, "ops": ops}
 
 
@@ -138,7 +143,7 @@ def _single_reg_case(rng):
         while rng.random() < 0.35:
             ops.append(rng.choice([["sigchld"], ["drain"]]))
         ops.append(e)
-    return {"kind": "script", "n": n, "ops": ops + [["sigchld"], ["drain"]]}
+    return {"kind": "script", "n": n, "ops": ops + ([["sigchld"]] if rng.random() < 0.3 else []) + [["drain"]]}
 
 
 def _real_case(rng):
@@ -152,16 +157,16 @@ def _real_case(rng):
 
 def gen_cases(rng, tier):
     if tier == "quick":
-        yield from _enum_cases(1, 6)
-        yield from _enum_cases(2, 5)
+        yield from _enum_cases(1, 7)
+        yield from _enum_cases(2, 6)
         yield from _enum_cases(3, 4)
         for _ in range(1500):
             yield _rand_case(rng)
         for _ in range(1500):
             yield _single_reg_case(rng)
     elif tier == "thorough":
-        yield from _enum_cases(1, 8)
-        yield from _enum_cases(2, 6)
+        yield from _enum_cases(1, 9)
+        yield from _enum_cases(2, 7)
         yield from _enum_cases(3, 6)
         for _ in range(15000):
             yield _rand_case(rng)
@@ -430,12 +435,14 @@ def impl_view(case, impl):
 def spec_requests(case, impl):
     if "infra" in impl:
         return []
-    return [line(ID, "spec", _n(case), _wire_ops(_ops(case, impl)))]
+    ops = _ops(case, impl)
+    return [line(ID, "spec", _n(case), _wire_ops(ops)), line(ID, "spec", _n(case), _wire_ops(ops[:-1]))]
 
 
-def _settled(ops):
-    """history ends with the SIGCHLD handler and the loop having run after the last exit/registration"""
-    return len(ops) >= 2 and ops[-2][0] == "sigchld" and ops[-1][0] == "drain"
+def _settled(ops, delivered_before_last):
+    """the loop has drained at the very end and (Spec.Delivered, from the driver, for the history without that last
+    drain) the SIGCHLD handler has run at some point after the child's exit"""
+    return len(ops) >= 1 and ops[-1][0] == "drain" and delivered_before_last
 
 
 def spec_violation(case, impl, replies):
@@ -445,6 +452,7 @@ def spec_violation(case, impl, replies):
     st, vals = parse_reply(replies[0])
     assert st == "ok", replies[0]
     expect, futexp = _plain(vals[0]), _plain(vals[1])
+    delivered = _plain(parse_reply(replies[1])[1][2])
     n = _n(case)
     if case["kind"] == "script":
         if impl["errors"]:
@@ -475,7 +483,7 @@ def spec_violation(case, impl, replies):
             if got and (not want or got[0] != want[0]):
                 return "code: child %d exit status %r reported as %r, should be %r" % (
                     i, exits[0][2] if exits else None, got[0], want[0] if want else None)
-            if _settled(ops) and len(got) != len(want):
+            if _settled(ops, delivered[i]) and len(got) != len(want):
                 return "count: exit callback of child %d ran %d times after settling, should be %d (%s)" % (
                     i, len(got), len(want), "exit before registration" if exits and ops.index(exits[0]) < ops.index(regs[0]) else
                     "exit after registration" if exits else "never exited")
@@ -484,7 +492,7 @@ def spec_violation(case, impl, replies):
             gotf = [f[2] for f in per_futs[i]]
             if gotf and (not wantf or gotf[0] != wantf[0]):
                 return "future: wait_for_exit(%s) of child %d settled as %r, should be %r" % (mode, i, gotf[0], wantf[0] if wantf else "pending")
-            if _settled(ops) and len(gotf) != len(wantf):
+            if _settled(ops, delivered[i]) and len(gotf) != len(wantf):
                 return "future-count: wait_for_exit(%s) of child %d %s" % (mode, i, "still pending after settling" if not gotf else "settled without an exit")
     if case["kind"] == "real" and impl.get("timed_out"):
         return "count: timed out waiting for exit notifications of real children"
